@@ -18,7 +18,7 @@ from vrf.oracle import validate
 from vrf.symx import sym
 
 B, Q = tys.Bool, tys.Qubit
-N_STEPS_KINDS = 16
+N_STEPS_KINDS = 17
 
 
 @native
@@ -154,6 +154,20 @@ def step(f, m, decl, g, kind, tag, bools, qubit, nodes):
                 cfg.branch_exit(right[0])
         qubit = cfg[0]
         nodes.append(cfg.parent_node)
+    elif kind == 16:   # CFG whose entry branches on a sum with DIFFERENT variant rows; the first exit leaves through branch 1
+        with f.add_cfg(_pick(tag + ".w", bools), qubit) as cfg:
+            with cfg.add_entry() as entry:
+                be, qe = entry.inputs()
+                s_ = entry.add_op(ops.Tag(1, tys.Sum([[Q], [Q, B]])), qe, be)
+                entry.set_block_outputs(s_)
+            cfg.branch_exit(entry[1])                       # exit row = variant 1 = [Q, B]
+            with cfg.add_successor(entry[0]) as other:      # variant 0 = [Q]
+                (qo,) = other.inputs()
+                other.set_single_succ_outputs(qo, other.load(val.TRUE))
+            cfg.branch_exit(other[0])
+        qubit = cfg[0]
+        bools.append(cfg[1])
+        nodes.append(cfg.parent_node)
     else:              # (kind 12) explicit state order between two earlier sibling nodes (any earlier -> any later one)
         if len(nodes) >= 2:
             j = sym.concretize(sym.int(tag + ".to", 1, len(nodes) - 1))
@@ -167,9 +181,9 @@ def h_is_bool(f, n):
 
 
 @lemma("C01", params=[(k,) for k in range(N_STEPS_KINDS)],
-       bounds="module programs of 2 (quick) / 3 (thorough) builder steps inside a function over 16 step kinds (custom op with unused output, linear "
+       bounds="module programs of 2 (quick) / 3 (thorough) builder steps inside a function over 17 step kinds (custom op with unused output, linear "
               "threading, tuple ops, Tag, constants, call, load_function + CallIndirect, nested DFG with an Ext wire, conditional, if/else, tail loop, "
-              "CFG with a Dom wire, CFG with a two-way branch that merges again, a wire crossing two region boundaries, a row-polymorphic call, explicit state order) plus an optional final state-order edge between any two of the nodes created; wires chosen by the solver; one task per first step; linear value consumed exactly once",
+              "CFG with a Dom wire, CFG with a two-way branch that merges again, CFG leaving first through branch 1 of a sum with different variant rows, a wire crossing two region boundaries, a row-polymorphic call, explicit state order) plus an optional final state-order edge between any two of the nodes created; wires chosen by the solver; one task per first step; linear value consumed exactly once",
        outside="longer programs; extension-delta / type-argument rules (not listed by the property)",
        opts={"max_paths": 200000, "timeout_s": 2500})
 def builder_programs_are_valid(first):
@@ -209,14 +223,19 @@ def inserted_builders_are_valid():
     f = m.define_function("main", [B, Q])
     b, q = f.inputs()
     kind = sym.concretize(sym.int("kind", 0, 3))
+    loads = sym.concretize(sym.bool("body_loads_a_constant"))   # the standalone builder's body loads a constant (where does the Const node go?)
     if kind == 0:
         inner = Dfg(B, Q)
         x = inner.add_op(programs.cust("x", [B, Q], [Q]), *inner.inputs())
+        if loads:
+            inner.add_op(programs.cust("use_k", [B], []), inner.load(val.TRUE))
         inner.set_outputs(x[0])
         n = f.insert_nested(inner, b, q)
     elif kind == 1:
         inner = Cfg(B, Q)
         with inner.add_entry() as e:
+            if loads:
+                e.add_op(programs.cust("use_k", [B], []), e.load(val.TRUE))
             e.set_single_succ_outputs(e.inputs()[1])
         inner.branch_exit(e[0])
         n = f.insert_cfg(inner, b, q)
@@ -224,12 +243,16 @@ def inserted_builders_are_valid():
         inner = Conditional(tys.Bool, [Q])
         for j in range(2):
             with inner.add_case(j) as cs:
+                if loads:
+                    cs.add_op(programs.cust("use_k", [B], []), cs.load(val.FALSE))
                 cs.set_outputs(*cs.inputs())
         n = f.insert_conditional(inner, b, q)
     else:
         inner = TailLoop([B], [Q])
         with inner:
             bi, qq = inner.inputs()
+            if loads:
+                inner.add_op(programs.cust("use_k", [B], []), inner.load(val.TRUE))
             inner.set_loop_outputs(inner.add_op(ops.Tag(1, tys.Sum([[B], []])), ), qq)
         n = f.insert_tail_loop(inner, [b], [q])
     f.set_outputs(n[0])
